@@ -1,5 +1,6 @@
 """C08: the meteorological wind-direction convention holds end to end (sector abstraction, 15 degrees)."""
 
+import copy
 import json
 import math
 import os
@@ -68,6 +69,13 @@ def main():
                     sc = {"kind": "orientation", "wind_dir": d, "closure": closure, "mol": mol, "grid": [nx, ny, xmax, ymax], "speed": speed}
                     if abs(math.hypot(u, v) - speed) > 1e-12 * speed:
                         chk.violation("wind decomposition does not preserve the speed: |(u,v)| = %r for speed %r" % (math.hypot(u, v), speed), sc, klass={"check": "speed"})
+                    if (k + len(obs)) % 4 == 0:
+                        # call history: a concentration run of the same configuration first (same grids, the other transform
+                        # direction) - the footprint that follows must not inherit anything from it
+                        raw_c = copy.deepcopy(raw)
+                        raw_c["solver"]["footprint"] = False
+                        cfg_c = parse_config_dict(raw_c)
+                        run_bldfm_single(cfg_c, cfg_c.towers[0])
                     res = run_bldfm_single(cfg, tw)
                     z, prof = vertical_profiles(n=12, meas_height=3.0, wind=(u, v), ustar=0.1 * speed + 0.05, mol=mol, closure=closure)
                     X, Y, _ = res["grid"]
